@@ -396,6 +396,26 @@ pub fn run_c15(replay: Option<String>) -> i32 {
         pratt_family_atoms(if thorough { 2 } else { 1 }, 2, &[0], &mut |g| base.push(g.clone()));
         base.extend(parts_family(&ebnf_bound(3, 0, 2, false)));
         base.extend(choice_family_ops(&ebnf_bound(3, 0, 2, false), 0, &[]));
+        // SHARED-NAMES: one node name used at two sites (renames / creations) of two-rule grammars with an ordered
+        // choice: what is emitted for the name (e.g. its delete callback) must not depend on which site comes first
+        base.extend(
+            choice_family_ops(
+                &ebnf_bound(3, 0, 2, false),
+                2,
+                &[Rx::Rename("n".into()), Rx::Create(None, Some("n".into()))],
+            )
+            .into_iter()
+            .filter(|g| {
+                let mut n = 0;
+                g.walk_all(&mut |_, r| {
+                    if matches!(r, Rx::Rename(_) | Rx::Create(..)) {
+                        n += 1
+                    }
+                });
+                g.rules.len() == 2 && n == 2
+            }),
+        );
+        eprintln!("# C15 base models: {}", base.len());
         for mut g in base {
             g.tokens.truncate(
                 1 + g
